@@ -403,6 +403,27 @@ def gen_precision_case(rng):
     return case
 
 
+WEAK_SIG = 'detect_sources:python-float-threshold-rounded-to-image-dtype'
+WEAK_WHAT = ('a Python float threshold with a float32/float16 image is rounded to the image dtype by `data > threshold` in '
+             '_detect_sources (NumPy weak scalars): pixels strictly above the threshold as passed are not detected; the answer '
+             'is the exact labelling for the rounded threshold')
+
+
+def directed_cases():
+    """Present on every run of both tiers (no PRNG draw): plateaus of float32(0.3) / float16(0.3) against the Python
+    float 0.1 + 2*0.1 = 0.30000000000000004 (strictly below both), and the same value as np.float64 scalar / 2-D float64
+    map, which must be compared exactly."""
+    t = 0.1 + 2 * 0.1
+    out = []
+    for dtype in ('float32', 'float16'):
+        v = float(_NPDT[dtype](0.3))
+        data = np.array([[v, v, 0.0], [v, v, 0.0]])
+        for rep in ('pyfloat', 'npf64', 'f64'):
+            out.append(dict(data=data.copy(), thr=np.full(data.shape, t) if rep == 'f64' else t, mask=None, conn=8, npix=4,
+                            kind='directed', dtype=dtype, thr_repr=rep, layout={'data': 'C', 'thr': 'C', 'mask': 'C'}))
+    return out
+
+
 def weak_scalar_threshold(case):
     """NumPy (NEP 50) treats a Python float / int operand as weakly typed: `float32_array > python_float` converts the
     scalar to float32 first.  Returns the value the comparison then really uses when it differs from the value the
@@ -834,11 +855,11 @@ def run(ctx):
                         'is_consecutive, missing_labels, background_area, segments, get_areas, get_indices) are compared '
                         'with their plain-Python meaning and with a fresh SegmentationImage only (no Coq model here; C05 '
                         'models them)']
-    ctx.assumptions += ['a Python float / int threshold with a float32 / float16 image is compared by NumPy in the image '
-                        "dtype (NEP 50 weak scalars): where that differs from the exact value of the scalar the "
-                        "implementation's answer is required to be the exact labelling for the rounded scalar and the case is "
-                        "counted under 'weak_scalar' (numpy scalars, 0-d arrays and 2-D thresholds of any dtype must be "
-                        'compared exactly)']
+    ctx.assumptions += ['recorded known finding ' + WEAK_SIG + ': a Python float threshold with a float32 / float16 image is '
+                        'compared by NumPy in the image dtype (NEP 50 weak scalars); reported on every run (directed + random '
+                        'cases, detect_sources and SourceFinder) only when the answer is the exact labelling for the rounded '
+                        'scalar, after which the case continues with the rounded threshold; numpy scalars, 0-d arrays and 2-D '
+                        'thresholds of any dtype must be compared exactly']
     ctx.cov['partial_clauses'] = ['detect_threshold is checked numerically against background + nsigma*error (given or '
                                   'sigma-clipped mean/std estimates, all image dtypes); no Coq model of it']
     n = 400 if ctx.tier == 'quick' else 3000
@@ -849,6 +870,8 @@ def run(ctx):
     cases += [gen_precision_case(ctx.rng) for _ in range(n // 2)]
     for c in cases:
         assign_layout(ctx.rng, c)
+    ndir = len(directed_cases())
+    cases = directed_cases() + cases
     if ctx.tier == 'thorough':
         ex = list(exhaustive_cases())
         for i, c in enumerate(ex):      # all layouts in turn (no PRNG draw: the exhaustive sweep stays exhaustive)
@@ -875,16 +898,16 @@ def run(ctx):
             ctx.stat('weak_scalar', 'python scalar threshold not representable in the float32/float16 image dtype')
             c_eff = dict(c, thr=eff, thr_repr='np' + {'float32': 'f32', 'float16': 'f16'}[c['dtype']])
             if not oracle(c, segm) and oracle(c_eff, segm):
-                # not a finding of photutils' code: `float32_array > python_float` is evaluated by NumPy (NEP 50) with
-                # the scalar converted to float32; the answer is the exact labelling for THAT threshold.  Counted and
-                # reported in the evidence; the case continues with the threshold NumPy really used, so that the
-                # labelling / attribute clauses are still checked on it.
+                # a pixel strictly above the threshold the caller passed is not detected: `float32_array > python_float`
+                # is evaluated by NumPy (NEP 50) with the scalar rounded to the image dtype.  Recorded known finding
+                # (fixes/C04-known.json) -- ONLY when the answer is the exact labelling for the rounded scalar; any
+                # other answer falls through to the ordinary checks below with the threshold as passed.  The case then
+                # continues with the threshold NumPy really used, so the labelling / attribute clauses stay checked.
                 ctx.stat('weak_scalar', 'answer = exact labelling for the scalar rounded to the image dtype (NEP 50), '
                          '!= exact labelling for the scalar as passed')
-                ctx.cov.setdefault('observations', [])
-                if len(ctx.cov['observations']) < 3:
-                    ctx.cov['observations'].append({'what': 'python float threshold compared in the image dtype by NumPy',
-                                                    'case': describe(c), 'threshold_used': eff})
+                ctx.violation(WEAK_SIG, WEAK_WHAT + f' (detect_sources; threshold {float(c["thr"])!r} compared as {eff!r})',
+                              describe(c), found_input=True)
+                c_eff['_orig'] = c
                 c = c_eff
         # the (redundant, plain-Python) attribute oracle runs on every random case and on every 3rd case of the
         # exhaustive sweep; fresh_agrees and the Coq comparison of labels / areas / slices run on all of them
@@ -1026,11 +1049,13 @@ def run(ctx):
     ctx.stat('generator', 'histories', nh)
     # SourceFinder(deblend=False) equals detect_sources
     from photutils.segmentation import SourceFinder, detect_sources
-    for c in (cases[:60] + cases[n:n + 40] + cases[n + n // 2:n + n // 2 + 20]
-              + cases[n + n // 2 + n // 8:n + n // 2 + n // 8 + 40]
-              + cases[2 * n + n // 8:2 * n + n // 8 + 40]):
+    rest = cases[ndir:]
+    for c in (cases[:ndir] + rest[:60] + rest[n:n + 40] + rest[n + n // 2:n + n // 2 + 20]
+              + rest[n + n // 2 + n // 8:n + n // 2 + n // 8 + 40]
+              + rest[2 * n + n // 8:2 * n + n // 8 + 40]):
         if c['mask'] is not None and c['mask'].all():
             continue
+        c_used, c = c, c.get('_orig', c)     # SourceFinder gets the arguments as generated (Python float included)
         with warnings.catch_warnings():
             warnings.simplefilter('ignore')
             try:
@@ -1046,6 +1071,14 @@ def run(ctx):
                                                and attrs_of(a) == attrs_of(b))
         if not same:
             ctx.violation('SourceFinder:deblend-false', 'SourceFinder(deblend=False) != detect_sources', describe(c))
+        if not oracle(c, a):
+            if c_used is not c and oracle(c_used, a):      # same `_detect_sources` line, reached through SourceFinder
+                ctx.stat('weak_scalar', 'same answer through SourceFinder(deblend=False)')
+                ctx.violation(WEAK_SIG, WEAK_WHAT + ' (reached through SourceFinder(deblend=False), same call site)',
+                              dict(describe(c), api='SourceFinder'), found_input=True)
+            else:
+                ctx.violation('SourceFinder:components', 'SourceFinder(deblend=False): segmentation differs from the '
+                              'connected components above threshold with >= npixels pixels', dict(describe(c), api='SourceFinder'))
         if a is not None and attrs_mismatch(a):
             ctx.violation('SourceFinder:preseeded-attrs', 'attributes of the SegmentationImage returned by '
                           'SourceFinder(deblend=False) differ from their meaning on its array: '
@@ -1080,8 +1113,8 @@ def replay(obj):
     ok = oracle(case, segm)
     eff = weak_scalar_threshold(case)
     if not ok and eff is not None and oracle(dict(case, thr=eff), segm):
-        print(f'python scalar threshold compared by NumPy in the image dtype (as {eff!r}): exact labelling for that value')
-        ok = True
+        print(f'[{WEAK_SIG}] python scalar threshold compared in the image dtype (as {eff!r}): exact labelling for that '
+              'value, not for the value passed')
     if case.get('_modified'):
         print('inputs modified in place:', case['_modified'])
         ok = False
